@@ -162,6 +162,7 @@ def main():
     swap_exact(chk, cases)
     scale_float(chk, 60 if chk.tier == "quick" else 1200)
     reuse.analyze_after_mutation(chk, 4 if chk.tier == "quick" else 24, "changing units (and other in-place changes of the data)")
+    analysis.narrow_ints(chk, 4 if chk.tier == "quick" else 24, "a column in other units (larger integers of a narrow integer type)")
     analysis.float_far_tail(chk, 12 if chk.tier == "quick" else 120, clauses=("swap",))
     chk.cov["rule"] = ("5 metric kinds x 12 option cells; exact swap (rational data) and float scale/swap end-to-end "
                        "through Experiment.analyze on PyArrow tables, c = 2^-20..2^20 and 10^-6..10^6")
